@@ -362,6 +362,69 @@ def r40_broadcast(facts):
             else:
                 c.unk(inst, F.loc(b, e), "where the result's dimensions (`%s`) come from is not recognised" % (show(dims_e)[:60] if dims_e is not None else "?"))
     c.floor("functions that compute a broadcast shape (the element-wise combinator)", n_users, 1)
+    # ------------------------------------------------------------------ (e) the period with which an operand's row is re-used is that operand's LAST dimension
+    from .repr_rules import vec_literal_elems as _vle
+    from .facts import is_sliced_closure
+    for b in facts.fns():
+        root = facts.root(b)
+        if root is None or b["def"] in ewd_defs or not any(n.get("k") == "Call" and resolved(n) in ewd_defs for n in walk(root)):
+            continue
+        order = None
+        for n in walk(root):
+            if n.get("k") == "Call" and resolved(n) == _SLICED and len(n["args"]) >= 7 and lit_value(n["args"][5]) == 1:
+                els = _vle(n["args"][0])
+                if els:
+                    order = [F.var_of(peel(x)) for x in els]
+        if not order:
+            continue
+        env = {}
+        for nb in facts.nested(b):
+            env.update(_shape_lets(facts, nb))
+        for nb in facts.nested(b):
+            if nb is b or not is_sliced_closure(nb, facts):
+                continue
+            cps = [p_ for p_ in facts.params(nb) if p_.get("pat")]
+            arrv = cps[1]["pat"].get("v") if len(cps) >= 2 and cps[1]["pat"].get("k") == "Binding" else None
+            for n in walk(facts.root(nb)):
+                if not (n.get("k") == "Binary" and n.get("op") == "Rem"):
+                    continue
+                # which operand slice is being indexed with this remainder?
+                k_ = None
+                for x in walk(facts.root(nb)):
+                    if x.get("k") == "Index" and any(y is n for y in walk(x["i"])):
+                        inner = peel(x["e"])
+                        if isinstance(inner, dict) and inner.get("k") == "Index" and F.var_of(inner["e"]) == arrv:
+                            k_ = lit_value(inner["i"])
+                if k_ is None or not (0 <= k_ < len(order)) or order[k_] is None:
+                    continue
+                m_ = peel(n["r"])
+                hops = 0
+                while isinstance(m_, dict) and m_.get("k") in ("VarRef", "UpvarRef") and m_["v"] in env and hops < 4:
+                    m_ = peel(env[m_["v"]])
+                    hops += 1
+                # accepted: the last dimension of operand k (last().unwrap(), dimensions[len - 1]) or the length of its slice
+                txt = show(m_) if isinstance(m_, dict) else "?"
+                opname = order[k_]
+                reads_op = any(y.get("k") in ("VarRef", "UpvarRef") and y["v"] == opname for y in walk(m_)) if isinstance(m_, dict) else False
+                is_last = False
+                if isinstance(m_, dict):
+                    calls = [(callee(y) or "").rsplit("::", 1)[-1] for y in walk(m_) if y.get("k") == "Call"]
+                    dims_read = any(y.get("k") == "Field" and y.get("name") == "dimensions" for y in walk(m_)) or any((resolved(y) or "") == "corgi::array::Array::dimensions" for y in walk(m_) if y.get("k") == "Call")
+                    if dims_read and "last" in calls:
+                        is_last = True
+                    ix_ = [y for y in walk(m_) if y.get("k") == "Index" or (y.get("k") == "Call" and callee(y) == "core::ops::index::Index::index")]
+                    if dims_read and ix_ and any(z.get("k") == "Binary" and z.get("op") == "Sub" and lit_value(z["r"]) == 1 for z in walk(m_)):
+                        is_last = True
+                inst = "period:%s#%d" % (b["def"], k_)
+                if reads_op and is_last:
+                    c.ok(inst, F.loc(nb, n), "operand %d's row is re-used with the period of its own last dimension" % k_)
+                elif reads_op:
+                    c.bad(inst, F.loc(nb, n), "operand %d's row (a slice along its LAST dimension) is indexed modulo `%s`, which is not that operand's last dimension: for an operand whose last dimension is 1 "
+                          "against a longer one the index runs past the one-element row" % (k_, txt[:50]))
+                elif isinstance(m_, dict) and any(y.get("k") in ("VarRef", "UpvarRef") and y["v"] in order and y["v"] != opname for y in walk(m_)):
+                    c.bad(inst, F.loc(nb, n), "operand %d's row is indexed modulo a quantity of the OTHER operand (`%s`)" % (k_, txt[:50]))
+                else:
+                    c.unk(inst, F.loc(nb, n), "the period `%s` used for operand %d is not recognised" % (txt[:50], k_))
     # ------------------------------------------------------------------ (c) alignment consistency of the slice walk
     so = facts.body("corgi::array::Array::sliced_op")
     if so is None:
